@@ -13,8 +13,13 @@ for i in range(1, 21):
     tried = []
     for d in sorted(glob.glob(os.path.join(V, "seeded", pid + "_*"))):
         tried.append("- " + json.load(open(os.path.join(d, "meta.json")))["needs_to_manifest"])
+    others = []
+    for d in sorted(glob.glob(os.path.join(V, "seeded", "C*_*"))):
+        if not os.path.basename(d).startswith(pid):
+            others.append("- " + json.load(open(os.path.join(d, "meta.json")))["needs_to_manifest"][:160])
     base = open(f"/dev/shm/prompts/{pid}.txt").read()
     note = "\n\n## Extra notes\n" + (extra.get(pid, "") + "\n" if pid in extra else "") + \
-        "The following changes were already tried by others; do NOT repeat them or close variants of them - find a breakage of a different nature, in a different part of the mechanism or needing a different kind of input/history:\n" + "\n".join(tried) + "\n"
+        "The following changes were already tried by others; do NOT repeat them or close variants of them - find a breakage of a different nature, in a different part of the mechanism or needing a different kind of input/history:\n" + "\n".join(tried) + "\n" + \
+        "\nChanges tried for OTHER properties of the same code base (some touch the same files; do not reuse these either):\n" + "\n".join(others) + "\n"
     open(f"/dev/shm/prompts/{pid}_next.txt", "w").write(base + note)
 print("written")
